@@ -8,7 +8,7 @@
 (* each instruction with Word's functions and relations, and follows the   *)
 (* control flow the path dictates, verifying that the EVM allows it.       *)
 (*                                                                         *)
-(* State: [ok, pc, stack (top first), mem (offset -> word), writes         *)
+(* State: [ok, pc, stack (top first), mem (offset word -> word), writes         *)
 (* (sequence of <<key, value>>), halted].                                  *)
 (***************************************************************************)
 EXTENDS Value, DisasmLib
@@ -79,12 +79,13 @@ Step(code, jd, s, st) ==
     ELSE IF b = PC THEN Push(seq(st.pc + 1), FromNat(st.pc))
     ELSE IF b = CODESIZE THEN Push(seq(st.pc + 1), FromNat(Len(code)))
     ELSE IF b = MSTORE THEN
-        IF SmallVal(a) >= 0 /\ SmallVal(a) % 32 = 0
-        THEN [Drop(seq(st.pc + 1), 2) EXCEPT !.mem = (SmallVal(a) :> bb) @@ s.mem]
+        \* memory is keyed by the offset WORD (the lowest limb decides alignment): offsets may be of any magnitude
+        IF a[1] % 32 = 0
+        THEN [Drop(seq(st.pc + 1), 2) EXCEPT !.mem = (a :> bb) @@ s.mem]
         ELSE Fail(s, "unaligned memory access in generated program")
     ELSE IF b = MLOAD THEN
-        IF SmallVal(a) >= 0 /\ SmallVal(a) % 32 = 0
-        THEN Push(Drop(seq(st.pc + 1), 1), MemAt(s.mem, SmallVal(a)))
+        IF a[1] % 32 = 0
+        THEN Push(Drop(seq(st.pc + 1), 1), MemAt(s.mem, a))
         ELSE Fail(s, "unaligned memory access in generated program")
     ELSE IF b = SLOAD THEN Push(Drop(seq(st.pc + 1), 1), LastWrite(s.writes, a))
     ELSE IF b = SSTORE THEN [Drop(seq(st.pc + 1), 2) EXCEPT !.writes = Append(s.writes, <<a, bb>>)]
